@@ -212,6 +212,46 @@ class Random(Fam):
 FAMILIES = [AllKmers, AllBytes2, Boundary, Random]
 
 
+def long_revcomp_check(ctx):
+    """sequences of 2^16 - 1 .. 2^20 bytes (thorough: 2^24), lengths at and next to multiples of 2^16: the result must be the reverse complements of
+    500-byte pieces in reverse order (concatenation lemma model-checked); the first, the last and the pieces next to each multiple of 2^16
+    are judged by TLC, all pieces enter the byte-wise comparison"""
+    import random
+    rng = random.Random(ctx.seed + 77)
+    fam = Random()
+    lengths = [(1 << 16) - 1, 1 << 16, (1 << 16) + 1, 1 << 17, 3 << 16, (1 << 18) + 5, 1 << 20]
+    if ctx.tier == 'thorough':
+        lengths += [5 << 16, (1 << 22), (1 << 24), (1 << 24) + 3]
+    judged = []
+    for L in lengths:
+        seq = rng.randbytes(L).translate(bytes(b'ACGTacgtNn-*'[i % 12] for i in range(256)))
+        step = 500
+        pieces = [seq[a:a + step] for a in range(0, L, step)]
+        expect = b''.join(revcomp(p) for p in reversed(pieces))
+        try:
+            got = revcomp(seq)
+            err = ''
+        except Exception as e:
+            got, err = b'', type(e).__name__
+        twice = revcomp(got) if not err else b''
+        for j, p in enumerate(pieces):
+            a = j * step
+            if j in (0, len(pieces) - 1) or min(a % (1 << 16), (1 << 16) - a % (1 << 16)) <= step:
+                judged.append(['revcomp', list(p)])
+        ctx.traces += 1
+        ctx.evaluations += 1
+        ctx.nontrivial_keys.add(('long-revcomp', L))
+        if err or got != expect or twice != seq or len(got) != L:
+            first = next((i for i in range(min(len(got), len(expect))) if got[i] != expect[i]), min(len(got), len(expect)))
+            ctx.report('long-revcomp', dict(length=L, seed=ctx.seed + 77), dict(err=err, out_len=len(got), first_difference=first, involution=(twice == seq)),
+                       ['differs-from-reverse-complements-of-pieces-in-reverse-order'], key=f'long-revcomp:{L}',
+                       describe=f'revcomp of {L} bytes: {err or ""} output length {len(got)}, first difference at {first}')
+    core.run_family(ctx, fam, inputs=judged)
+    ctx.families.append(dict(name='long-revcomp', records=len(lengths)))
+    ctx.rule_parts.append(f'[long-revcomp] sequences of {lengths} bytes over ACGTacgtNn-*: equal to the reverse complements of 500-byte pieces in reverse order, '
+                          'involution, length; pieces at the ends and around every multiple of 2^16 judged by TLC')
+
+
 def run(ctx):
     ctx.mc('MC_KmerCodec', 'MC_KmerCodec.cfg', require_actions=['K2IStep', 'K2IRCStep', 'I2KStep', 'RevCompStep', 'Finish'],
            note='conversion loops == definition; 15-byte alphabet incl. @ ` ! 0xC1 0xF4, length <= 3; byte-range lemmas as ASSUMEs')
@@ -219,12 +259,15 @@ def run(ctx):
         ctx.mc('MC_KmerCodec', 'MC_KmerCodec_small.cfg', note='8-byte alphabet, length <= 4')
     for F in FAMILIES:
         core.run_family(ctx, F())
+    long_revcomp_check(ctx)
     ctx.assumptions += ['int -> base-4 digit expansion and bytes <-> int lists are done by the harness (trusted projection); '
                         'for k<=15 TLC additionally checks the integer value itself',
                         'k-mer indices for k>15 are compared as digit tuples (TLC integers are 32-bit)']
 
 
 def replay(ctx, scen):
+    if scen['family'] not in {F.name for F in FAMILIES}:
+        return core.RERUN            # reported outside a judged family: replay by re-running the check
     fam = {F.name: F for F in FAMILIES}[scen['family']]()
     recs, bad = core.run_family(ctx, fam, inputs=[scen['inputs']])
     return not bad
